@@ -267,6 +267,25 @@ func.func public @simple_mult(%A: memref<?xi32>, %B: memref<?xi32>, %D: memref<?
 """
 
 
+def region_verifies(acc, op, opnds):
+    """Run the real `StreamingRegionOp.verify_` (the module verifier runs it between all passes): the region is put
+    in a function next to the accelerator's own `accfg.accelerator` op (which carries the streamer configuration)."""
+    from xdsl.dialects import builtin, func
+    from xdsl.ir import Region
+    from xdsl.utils.exceptions import VerifyException
+    fblock = opnds[0][0]
+    f = func.FuncOp("region_under_test", ([a.type for a in fblock.args], []), Region(fblock))
+    mod = builtin.ModuleOp([acc.generate_acc_op(), f])
+    opnds[0].append(mod)
+    try:
+        op.verify_()
+        for pat in op.stride_patterns.data:
+            pat.verify()
+        return True
+    except VerifyException:
+        return False
+
+
 def run_real(case):
     """-> {"fields": [...], "vals": [...]} | {"fields": [...], "raised": cls}"""
     from snaxc.dialects import accfg
@@ -297,6 +316,7 @@ def run_real(case):
         raise ValueError(kind)
     out = {"fields": list(acc.fields)}
     op, opnds, first_generic, zps = build_region(case, acc.name)
+    out["accepts"] = region_verifies(acc, op, opnds)
     try:
         ops = acc.convert_to_acc_ops(op)
     except (IndexError, AssertionError, ValueError, ZeroDivisionError, NotImplementedError) as e:
@@ -330,6 +350,26 @@ def ev(t):
     if tag == "shl":
         return (a << b) & MASK if b < 32 else 0
     raise ValueError(tag)
+
+
+def sgn(x):
+    return x - (1 << 32) if x >> 31 else x
+
+
+def stream(dims, limit=4096):
+    """first `limit` addresses of a loop nest, entry 0 = innermost loop"""
+    import itertools
+    if any(b <= 0 for b, _ in dims):
+        return []
+    rng_out = [range(b) for b, _ in reversed(dims)]
+    strides = [t for _, t in reversed(dims)]
+    return [sum(i * t for i, t in zip(idx, strides)) for idx in itertools.islice(itertools.product(*rng_out), limit)]
+
+
+def same_stream(a, b):
+    na = prod(max(x, 0) for x, _ in a)
+    nb = prod(max(x, 0) for x, _ in b)
+    return na == nb and stream(a) == stream(b)
 
 
 def prod(xs):
@@ -657,6 +697,104 @@ def pointer_sources(rng):
                "post": None, "nin": 2, "mid": 0}
 
 
+def canon_len(ub, ts, ss):
+    """number of loops of the canonical form (generator-side re-implementation, used only to label cases)"""
+    if 0 in ss:
+        return len(ub)
+    nb, nt = [], []
+    for b, t in zip(ub, ts):
+        if b == 0:
+            nb.append(0)
+            nt.append(0)
+        elif b == 1:
+            continue
+        elif nb and nb[-1] * nt[-1] == t:
+            nb[-1] *= b
+        else:
+            nb.append(b)
+            nt.append(t)
+    return len(nb)
+
+
+def decanonicalise(rng, st, fits=True):
+    """a hand-written, non-canonical pattern for streamer `st`: a canonical loop nest that fits (or is one loop too long)
+    into which unit loops (leading / middle / trailing) are inserted and whose loops are split into contiguous pairs"""
+    td = len(st["t"])
+    k = rng.randint(1, td) if fits else td + 1
+    ub, ts = [], []
+    t = 8 * rng.randint(1, 4)
+    for _ in range(k):
+        b = rng.choice([2, 3, 4, 6, 8, 9, 12, 16])
+        ub.append(b)
+        ts.append(t)
+        t = b * t + 8 * rng.randint(1, 3)          # never contiguous with the previous loop
+    for _ in range(rng.randint(1, 3)):
+        if rng.random() < 0.5:
+            pos = rng.choice([0, len(ub), rng.randint(0, len(ub))])
+            ub.insert(pos, 1)
+            ts.insert(pos, rng.choice([0, 0, 8 * rng.randint(1, 50)]))
+        else:
+            i = rng.randrange(len(ub))
+            fac = [f for f in (2, 3, 4) if ub[i] % f == 0 and ub[i] // f > 1]
+            if fac:
+                f = rng.choice(fac)
+                b, t0 = ub[i], ts[i]
+                ub[i:i + 1] = [f, b // f]
+                ts[i:i + 1] = [t0, f * t0]
+    ss = [8 * rng.randint(1, 9) for _ in st["s"]]
+    if rng.random() < 0.1:
+        ss[0] = 0                                   # canonicalize() returns such a pattern unchanged
+    return {"ub": ub, "ts": ts, "ss": ss}
+
+
+def gen_noncanonical(rng, kind):
+    """regions as a person would write them: over-long but foldable patterns, and over-long patterns that do not fit"""
+    def streamer(pool):
+        return {"t": [rng.choice("nnnr") for _ in range(rng.randint(1, 4))], "s": [rng.choice([4, 8])],
+                "o": [x for x in pool if rng.random() < 0.3]}
+    if kind == "alu":
+        cfg = [streamer(REG_OPTS) for _ in range(rng.randint(1, 3))] if rng.random() < 0.7 else [dict(x) for x in ALU_DEFAULT]
+    elif kind == "xdma":
+        cfg = [streamer(XDMA_OPTS) for _ in range(2)]
+    else:
+        cfg = [dict(x) for x in GEMMX_DEFAULT]
+    op = gen_streamop(rng, cfg)
+    victims = range(len(cfg)) if kind != "gemmx" else [1]       # gemmx: B (A and the output fix K, M)
+    for i in victims:
+        if rng.random() < 0.75:
+            op["pats"][i] = decanonicalise(rng, cfg[i], fits=rng.random() < 0.7)
+    case = {"kind": kind, "cfg": cfg, "op": op}
+    if kind == "xdma":
+        case["kernel"] = rng.choice([["add"], ["other"]])
+    if kind == "gemmx":
+        op["pats"][4] = {"ub": op["pats"][0]["ub"][:2], "ts": [4104, 0][:len(op["pats"][0]["ub"][:2])], "ss": op["pats"][4]["ss"]}
+        case.update({"n": 8, "m": 8, "k": 8, "kernel": ["mac", None], "i8out": False, "post": None, "nin": 2, "mid": 0})
+    return case
+
+
+def noncanonical_small(rng):
+    """the hand-written shapes by name, on 1-, 2- and 3-dimensional streamers (alu and xDMA)"""
+    shapes1 = [([16], [32]), ([1, 16], [0, 32]), ([1, 16], [640, 32]), ([16, 1], [32, 0]), ([4, 4], [32, 128]),
+               ([4, 4], [32, 256]), ([2, 2, 4], [32, 64, 128]), ([1, 1, 16], [0, 0, 32]), ([2, 8], [32, 64])]
+    for ub, ts in shapes1:
+        cfg = [dict(x) for x in ALU_DEFAULT]
+        op = gen_streamop(rng, cfg)
+        op["pats"] = [{"ub": list(ub), "ts": list(ts), "ss": [8]} for _ in cfg]
+        yield {"kind": "alu", "cfg": cfg, "op": op}
+    shapes2 = [([1, 4, 6], [0, 8, 40]), ([4, 1, 6], [8, 0, 40]), ([4, 6, 1], [8, 40, 0]), ([2, 2, 6], [8, 16, 40]),
+               ([4, 2, 3], [8, 40, 80]), ([4, 6, 5], [8, 40, 400]), ([1, 1, 4, 6], [0, 0, 8, 40])]
+    for flags in (["n", "n"], ["r", "n"]):
+        for ub, ts in shapes2:
+            cfg = [{"t": list(flags), "s": [4], "o": []}, {"t": ["n", "n", "n"], "s": [4], "o": ["c"]}]
+            op = gen_streamop(rng, cfg)
+            op["pats"] = [{"ub": list(ub), "ts": list(ts), "ss": [8]}, {"ub": list(ub), "ts": list(ts), "ss": [8]}]
+            yield {"kind": "alu", "cfg": cfg, "op": op}
+            xcfg = [{"t": list(flags), "s": [8], "o": ["c"]}, {"t": ["n", "n"], "s": [8], "o": []}]
+            xop = gen_streamop(rng, xcfg)
+            xop["pats"] = [{"ub": list(ub), "ts": list(ts), "ss": [8]}, {"ub": [4], "ts": [64], "ss": [8]}]
+            yield {"kind": "xdma", "cfg": xcfg, "op": xop, "kernel": ["other"]}
+
+
 def gemmx_shapes(rng):
     """(q)mac, (q)mac->rescale, (q)mac->add, (q)mac->add->rescale, (q)mac->add->add->rescale on the default geometry"""
     # every supported gemmx region shape x output type x per-tensor / per-channel rescale on the default geometry
@@ -720,7 +858,8 @@ class C08(Prop):
     ]
     rule = ("structured random configurations (1..6 temporal dims with n/i/r flags, 1..2 spatial dims, random option / "
             "extension subsets in random order, gemmx n in {4,8,12,16}, mac/qmac/rescale/post-rescale bodies, zero pointers) "
-            "with marker stride patterns; pointer operands are a mix of op results, non-zero constants, function arguments, "
+            "with marker stride patterns; hand-written non-canonical regions (unit loops leading/middle/trailing, contiguous "
+            "loop pairs, over-long patterns that fold to fit and that do not) run through the real region verifier; pointer operands are a mix of op results, non-zero constants, function arguments, "
             "loop-carried values and zero constants in every position (enumerated for 3-streamer alu, xDMA, gemmx); non-trivial = values were produced and some pattern is shorter than the "
             "streamer (padding) or a reuse dimension collapses or a zero pointer/packed field is present")
 
@@ -728,6 +867,9 @@ class C08(Prop):
         n = 900 if tier == "quick" else 8000
         yield {"kind": "hwpe"}
         yield from pointer_sources(rng)
+        yield from noncanonical_small(rng)
+        for i in range(n // 6):
+            yield gen_noncanonical(rng, ("alu", "xdma", "gemmx")[i % 3])
         if tier != "thorough":
             yield from gemmx_shapes(rng)
         if tier == "thorough":
@@ -829,7 +971,11 @@ class C08(Prop):
                     fid = "D10"
                 elif kind == "xdma" and re.search(r"_enabled_(chan|byte)$", name) and len(set(case["op"]["zero"])) > 1:
                     fid = "D80"
-                elif kind == "alu" and name == "loop_bound_alu" and len(case["op"]["pats"][0]["ub"]) > 1:
+                elif (kind == "alu" and name == "loop_bound_alu"
+                      and len(case["op"]["pats"][0]["ub"]) > 1
+                      and (len(case["op"]["pats"][0]["ub"]) <= len(case["cfg"][0]["t"]) or not impl_out.get("accepts", True))):
+                    # D82 is about a multi-loop pattern that FITS its streamer (or a region the verifier rejects anyway);
+                    # an ACCEPTED over-long pattern is a silently dropped loop, not D82
                     fid = "D82"
                 elif kind == "gemmx" and name == "K" and case["kernel"][0] == "mac":
                     # inconsistent streams of one operation (output loops are not a sub-nest of A's): outside the
@@ -837,6 +983,28 @@ class C08(Prop):
                     continue
                 out.append({"what": f"register {name} receives {got:#x}, its name means {want & MASK:#x}", "finding": fid})
                 if fid is None:
+                    break
+        if impl_out.get("accepts") and kind != "hwpe" and len(vals) == len(fields):
+            # A region the verifier accepts gets registers that mean exactly the pattern as written: the (bound, stride)
+            # registers of every streamer generate the temporal address stream of its stride pattern (a reused dimension
+            # with stride 0 visits its address once). Nothing may be dropped silently.
+            byname = {n: ev(v) for n, v in zip(fields, vals)}
+            for si, (st, p) in enumerate(zip(case["cfg"], case["op"]["pats"])):
+                nm = chr(97 + si)
+                td = len(st["t"])
+                if any(f"{nm}_bound_{d}" not in byname or f"{nm}_tstride_{d}" not in byname for d in range(td)):
+                    continue
+                got = [(byname[f"{nm}_bound_{d}"], sgn(byname[f"{nm}_tstride_{d}"])) for d in range(td)]
+                want = []
+                for d, (b, t) in enumerate(zip(p["ub"], p["ts"])):
+                    if d < td and st["t"][d] == "r" and t == 0 and b > 1:
+                        b = 1
+                    want.append((b, t))
+                if not same_stream(got, want):
+                    out.append({"what": f"accepted region: streamer {nm} is programmed with (bound, stride) {got}, which is not "
+                                        f"the address stream of its pattern ub={p['ub']} ts={p['ts']} "
+                                        f"({prod(b for b, _ in got)} instead of {prod(b for b, _ in want)} steps)",
+                                "finding": None})
                     break
         if kind == "gemmx" and not out:
             # kernel loop counts agree with the number of temporal steps of stream A (when the streams of the
@@ -875,6 +1043,10 @@ class C08(Prop):
                   + (":post" if case.get("post") else ""))
         if k == "xdma":
             k += ":" + case["kernel"][0]
+        if isinstance(impl_out, dict) and impl_out.get("accepts") is False:
+            k += ":rejected"
+            if all(canon_len(p["ub"], p["ts"], p["ss"]) <= len(st["t"]) for st, p in zip(case["cfg"], case["op"]["pats"])):
+                k += "(foldable)"
         if isinstance(impl_out, dict) and "raised" in impl_out:
             return f"{k}:raised:{impl_out['raised']}"
         return k
